@@ -20,11 +20,13 @@ PAIRS = {
     'nudge-swap': ('CNO', geo.PATTERNS['planar3'][1], 'CNS', [[0.05, -0.05, 0.04]] + geo.PATTERNS['planar3'][1][1:]),
     # the new atom is listed BEFORE the atoms taken over (interleaved order): indices of retained atoms differ between the two patterns
     'grow-interleaved': ('CNO', geo.PATTERNS['planar3'][1], 'CSNOP', [geo.PATTERNS['planar3'][1][0], [1.6, 1.5, 1.3], geo.PATTERNS['planar3'][1][1], geo.PATTERNS['planar3'][1][2], [2.4, 2.3, 2.1]]),
+    # elements whose one-letter symbols are prefixes of other symbols (B / Be Br Ba Bi, S / Si Se Sc Sn Sr Sb, I / In Ir)
+    'bsi-swap': ('BSI', geo.PATTERNS['planar3'][1], 'BSO', geo.PATTERNS['planar3'][1]),
     'collinear-swap': ('CNO', geo.PATTERNS['collinear3'][1], 'CNS', geo.PATTERNS['collinear3'][1][:2] + [[2.5, 0.0, 0.0]]),
 }
 
 
-def patterns(pairname, motion=None, with_terms=False, extras=False):
+def patterns(pairname, motion=None, with_terms=False, extras=False, relabel=False):
     """Returns (search Atoms, replace Atoms).  motion = (Rotation, translation) applied jointly to both."""
     from mofun import Atoms
     se, sx, re_, rx = PAIRS[pairname]
@@ -47,6 +49,9 @@ def patterns(pairname, motion=None, with_terms=False, extras=False):
         sp = Atoms(elements=list(se), positions=sx)
         if len(re_):
             rp = Atoms(elements=list(re_), positions=rx, charges=[0.1 * (i + 1) for i in range(len(re_))], groups=[7] * len(re_), **kw)
+            if relabel:
+                # the replacement names its atom types differently (C_3 instead of C): the atoms it shares with the search pattern are still the same atoms
+                rp.atom_type_labels = ["%s_3" % l for l in rp.atom_type_labels]
         else:
             rp = Atoms()
     return sp, rp
@@ -63,10 +68,10 @@ def shared_map(sp, rp, tol=1e-5):
     return m
 
 
-def planted(cellname, pairname, copies, seed, decoys=3, straddle=True, noise=0.0, tilt=None):
+def planted(cellname, pairname, copies, seed, decoys=3, straddle=True, noise=0.0, tilt=None, near_miss=0, atol=0.05):
     rnd = random.Random(seed)
     se, sx, _, _ = PAIRS[pairname]
-    case = geo.build(cellname, None, copies, rnd, decoys=decoys, straddle=straddle, pattern_override=(se, sx), noise=noise, tilt=tilt)
+    case = geo.build(cellname, None, copies, rnd, decoys=decoys, straddle=straddle, pattern_override=(se, sx), noise=noise, tilt=tilt, near_miss=near_miss, atol=atol)
     if seed % 2 == 1:
         gen.add_unused_type(case['structure'])     # every second planted structure carries a trailing atom type that no atom uses
     if len(se) == 1:
